@@ -398,7 +398,17 @@ func c08Run(c *core.Ctx, idx int) {
 	for _, x := range xs {
 		t := x.Clone()
 		t.Badfilter = true
-		added = append(added, x.Render(c.Rng), t.Render(c.Rng))
+		xt := x.Render(c.Rng)
+		added = append(added, xt, t.Render(c.Rng))
+		if c.Rng.Intn(4) == 0 {
+			// The same rule more than once (lists overlap): one twin disables
+			// every copy.
+			added = append(added, xt)
+			if c.Rng.Intn(2) == 0 {
+				added = append(added, x.Render(c.Rng))
+			}
+			c.Event("extra_rules_present_more_than_once", 1)
+		}
 	}
 	scs = append(scs, scenario{relation: fmt.Sprintf("add-%d-rules-with-twins", len(xs)), base: base, added: added})
 	// R2: y differs from x in one aspect; x$badfilter must not touch y.
@@ -507,6 +517,7 @@ func init() {
 		Level: "exploration",
 		Rule: "metamorphic: base lists of 0..6 (one in twenty: 13..42) rules (+ hosts lines / referrer exceptions), k = 1..4 extra rules that are mutually similar (variations of one rule in one aspect) added with their $badfilter twins at random positions, " +
 			"and rules y differing from x in exactly one of {exception, pattern, content type, third-party, important, $domain, $denyallow, $dnstype, $ctag, $client, $dnsrewrite, match-case} added with x$badfilter; " +
+			"one extra rule in four is added two or three times (one twin disables every copy); " +
 			"verdicts before/after are compared through rule objects in list order (NewMatchingResult, GetDNSBasicRule, DNSRewrites: exact texts) and through Engine, NetworkEngine and DNSEngine (equal up to priority ties); non-trivial = every extended list; distinct by relation and list",
 		Assumptions: []string{
 			"twins keep the value order inside each modifier (a permuted $domain list is a declared don't-care)",
